@@ -73,21 +73,20 @@ FloatValsO == {V(O, <<1, 2>>) : O \in OpaqueVars}
 FloatCasesOf(S) == {c \in {[v |-> v, w |-> w, multi |-> mu] : v \in S, w \in {32, 64}, mu \in BOOLEAN} :
                       WellTyped(c.v) /\ ~FloatUndecided(c.v, c.w, c.multi)}
 
-VARIABLES c, done
-vars == <<c, done>>
-Init == /\ done = FALSE
-        /\ CASE Kind = "int" -> c \in IntCasesOk \/ c \in IntCasesF \/ c \in IntCasesO
+VARIABLE c
+vars == <<c>>
+Init == CASE Kind = "int" -> c \in IntCasesOk \/ c \in IntCasesF \/ c \in IntCasesO
              [] Kind = "text" -> c \in TextCasesOk
              [] Kind = "float" -> \/ c \in FloatCasesOf(FloatValsN) \/ c \in FloatCasesOf(FloatValsF)
                                   \/ c \in FloatCasesOf(FloatValsT) \/ c \in FloatCasesOf(FloatValsO)
-Next == ~done /\ done' = TRUE /\ UNCHANGED c
+Next == UNCHANGED c
 Spec == Init /\ [][Next]_vars
 
 IntRes(x) == IF x.multi THEN ToMultiInt(x.v, x.T) ELSE ToInt(x.v, x.T)
 FloatRes(x) == IF x.multi THEN ToMultiFloat(x.v, x.w) ELSE ToFloat(x.v, x.w)
 
 (* theorems of the specification *)
-SpecOk == done \/
+SpecOk ==
     CASE Kind = "int" ->
            /\ WellTyped(c.v)
            /\ (c.v.var \in IntVars /\ c.multi) =>
@@ -107,7 +106,7 @@ SpecOk == done \/
            /\ (c.multi /\ FloatRes(c).ok) => Len(FloatRes(c).fs) = Len(c.v.items)
            /\ (c.multi /\ c.v.var \in FloatVars /\ FBitsOf(c.v.var) = c.w) => FloatRes(c) = OkFs(c.v.items)   \* identity
 
-Emit == done =>
+Emit ==
     IF Kind = "float"
     THEN PrintT(<<"CASE", ToJson([kind |-> "float", v |-> c.v, w |-> c.w, multi |-> c.multi, res |-> FloatRes(c)])>>)
     ELSE PrintT(<<"CASE", ToJson([kind |-> "int", v |-> c.v, T |-> c.T, multi |-> c.multi, res |-> IntRes(c)])>>)
